@@ -22,8 +22,10 @@ package tcplistener
 //@ ghost var cbuf []byte
 //@ ghost var mlrnext int
 //@ ghost var mlrgap int
+//@ ghost var lastn int
 //@ fieldspec multiLineReader.readInput(p []byte) (n int, err error)
-//@   modifies p[:]
+//@   modifies p[:], lastn
+//@   ghostset lastn := result.0
 //@   ensures 0 <= result.0 && result.0 <= len(p)
 // The tester is only ever shown text that ends at a line boundary - just before a newline - or, when a flush or an overflow
 // forces a decision, at the end of the buffered data (ghost mlrend; -1 where that is not allowed): its verdict never depends
@@ -45,6 +47,7 @@ package tcplistener
 // ---- processBuffer: consumes every record whose successor's first line is complete; what stays buffered is exactly the
 // rest, moved to the front: no byte is lost, duplicated or reordered (the one newline after each record aside)
 //@ func (mlr *multiLineReader) processBuffer(bufferEnd int)
+//@   flag counted
 //@   requires mlrshape(mlr) && mlrlines(mlr) && mlr.offsetAppend < bufferEnd && bufferEnd <= len(mlr.buffer)
 //@   define   cbuf === mlr.buffer && mlrnext == 0 && mlrgap == 0 && mlrend == -1 && forall p int :: !mlrtest[p]
 //@   modifies mlr.offsetAppend, mlr.offsetSearch, mlr.buffer[:], mlrnext, mlrgap, mlrtest
@@ -65,10 +68,13 @@ package tcplistener
 //@   ensures[untouched-when-there-is-room] old(len(mlr.buffer) - mlr.offsetAppend >= mlr.softRecordLimit) ==> mlr.offsetAppend == old(mlr.offsetAppend) && mlr.offsetSearch == old(mlr.offsetSearch) && mlrnext == old(mlrnext) && mlrgap == old(mlrgap)
 //@   ensures[reset-otherwise] !old(len(mlr.buffer) - mlr.offsetAppend >= mlr.softRecordLimit) ==> mlr.offsetAppend == 0 && mlr.offsetSearch == 0
 
+// whatever the reader callback delivered is processed, also when it came together with an error (the last fragment
+// before EOF): exactly one processBuffer call iff n > 0 (ghost lastn = the n of the last readInput)
 //@ func (mlr *multiLineReader) Read() error
 //@   requires mlrok(mlr)
 //@   define   cbuf === mlr.buffer && mlrnext == 0 && mlrgap == 0 && mlrend == -1 && forall p int :: !mlrtest[p]
-//@   modifies mlr.offsetAppend, mlr.offsetSearch, mlr.buffer[:], mlrnext, mlrgap, mlrtest
+//@   modifies mlr.offsetAppend, mlr.offsetSearch, mlr.buffer[:], mlrnext, mlrgap, mlrtest, lastn
+//@   ensures[bytes-read-are-never-discarded] ncalls("tcplistener.multiLineReader.processBuffer") == old(ncalls("tcplistener.multiLineReader.processBuffer")) + (lastn > 0 ? 1 : 0)
 //@   ensures[shape-kept] mlrshape(mlr) && len(mlr.buffer) - mlr.offsetAppend >= mlr.softRecordLimit
 //@   ensures[lines-kept] mlrlines(mlr)
 
